@@ -1,8 +1,10 @@
 import Oracle.Store
 import Oracle.Ephemeral
+import Oracle.EphUser
 /- `oracle_store <mode>`: one JSON case per stdin line, one JSON verdict per stdout line. -/
 def main (args : List String) : IO UInt32 := do
   match args with
   | ["store"] => Oracle.serve Oracle.Store.handle; return 0
   | ["ephemeral"] => Oracle.serve Oracle.Ephemeral.handle; return 0
-  | _ => IO.eprintln "usage: oracle_store store|ephemeral"; return 2
+  | ["user"] => Oracle.serve Oracle.EphUser.handle; return 0
+  | _ => IO.eprintln "usage: oracle_store store|ephemeral|user"; return 2
